@@ -26,7 +26,12 @@ for id in "${ids[@]}"; do
   case $id in
     revert-388177c|C09g|C09j|C09k|C09l|C09m) export RACE=1 RACECTL=" "; n=6400; extra=" (controlled race build)";;
     C09h) export RACE=1 RACECTL=" "; n=6400; prof=c19; extra=" (controlled race build)";;
-    C09i) export RACE=1 RACECTL=" "; n=6400; prof=c14; extra=" (controlled race build)";;
+    C09i|C09o) export RACE=1 RACECTL=" "; n=6400; prof=c14; extra=" (controlled race build)";;
+    C09n) export RACE=1 RACECTL=" "; n=6400; extra=" (controlled race build)";;
+    C09p) export RACE=1 RACECTL=" "; n=9600; prof=c04; extra=" (controlled race build)";;
+    C09q) export RACE=1 RACECTL=" "; n=6400; prof=c13; extra=" (controlled race build)";;
+    C09r) export RACE=1 RACECTL=" "; n=6400; prof=c05; extra=" (controlled race build)";;
+    C09s) export RACE=1 RACECTL=" "; n=9600; prof=c01; extra=" (controlled race build)";;
   esac
   if ! git -C /repo apply --check $d/patch.diff 2>/dev/null; then
     echo -e "$id\t$prop\t$prof\t-\tpatch does not apply to /repo HEAD (superseded by a later fix)" | tee -a $OUT; continue
